@@ -83,6 +83,16 @@ def sql_parts(expr, env=None):
         init = env.get(ref.get('id'))
         if init is not None:
             return sql_parts(init, env)
+        # a namespace-scope / static constant holding SQL text (`const char* const cols = "a, b";`)
+        tu = env.get('__tu__')
+        d = tu.ids.get(ref.get('id')) if tu is not None else None
+        if d is not None and d.get('kind') == 'VarDecl':
+            t = (d.get('dtype') or d.get('type') or '')
+            const = d.get('constexpr') or t.rstrip().endswith('const') or t.startswith('const std::') or \
+                t.startswith('const basic_string') or 'string_view' in t
+            c = [x for x in children(d) if not x['kind'].endswith('Attr')]
+            if const and c and ('char' in t or 'string' in t):
+                return sql_parts(c[-1], env)
     return [Hole(n)]
 
 
@@ -188,7 +198,9 @@ def _string_locals(func):
                 l = strip(c[1])
                 if l.get('kind') == 'DeclRefExpr':
                     assigned.add((l.get('referencedDecl') or {}).get('id'))
-    return {k: v for k, v in inits.items() if k not in assigned}
+    out = {k: v for k, v in inits.items() if k not in assigned}
+    out['__tu__'] = func.tu
+    return out
 
 
 def _mk(node, r, binds, sink, func, env=None):
